@@ -12,6 +12,11 @@ use crate::ri::*;
 /// Load (parse + bind) a text that the generator built to be well-formed and fitting.
 /// A failure to load is reported under `prefix:load`, a panic under its own signature.
 pub fn load_wellformed(out: &mut CaseOut, prefix: &str, text: &str, sigs: &[Sig]) -> Option<TestCase> {
+    // "a well-formed program is accepted and yields its rows" is C01's statement, "values are
+    // bound to signals by header name" C06's; for every other property a test that does not
+    // load only means that the property's observable cannot be produced: discard (counted)
+    let owns_parse = prefix == "c01";
+    let owns_bind = prefix == "c01" || prefix == "c06";
     match load(text, sigs) {
         Ok(tc) => Some(tc),
         Err(LoadErr::Panic(p)) => {
@@ -19,11 +24,19 @@ pub fn load_wellformed(out: &mut CaseOut, prefix: &str, text: &str, sigs: &[Sig]
             None
         }
         Err(LoadErr::Parse(m)) => {
-            out.fail(format!("{prefix}:parse-rejected"), format!("well-formed program rejected by the parser: {m}"));
+            if owns_parse {
+                out.fail(format!("{prefix}:parse-rejected"), format!("well-formed program rejected by the parser: {m}"));
+            } else {
+                out.discard("well-formed-program-rejected-by-parser");
+            }
             None
         }
         Err(LoadErr::Bind(m)) => {
-            out.fail(format!("{prefix}:bind-rejected"), format!("fitting signal list rejected: {m}"));
+            if owns_bind {
+                out.fail(format!("{prefix}:bind-rejected"), format!("fitting signal list rejected: {m}"));
+            } else {
+                out.discard("fitting-signal-list-rejected");
+            }
             None
         }
     }
@@ -206,6 +219,16 @@ pub fn trace_diff(t: &RiTrace, real: &RealRun, proj: Projection) -> Option<(Stri
             ));
         };
         if let RealItem::Panic(p) = real_item {
+            if p.is_fuel() {
+                return Some((
+                    p.key(),
+                    format!(
+                        "next() #{i} ran away: it used up the step fuel (16 x the {} statement executions in which the reference interpreter finishes the whole program, + 20000) without returning; due: {}",
+                        t.facts.steps,
+                        fmt_ri_item(ri_item)
+                    ),
+                ));
+            }
             return Some((p.key(), format!("next() #{i} panicked: {p}; due: {}", fmt_ri_item(ri_item))));
         }
         match (ri_item, real_item) {
@@ -244,6 +267,9 @@ pub fn trace_diff(t: &RiTrace, real: &RealRun, proj: Projection) -> Option<(Stri
         }
     }
     if matches!(t.end, RiEnd::Finished) {
+        if let Some(RealItem::Panic(p)) = real.items.get(t.items.len()) {
+            return Some((p.key(), format!("the next() after the last row did not return the end of iteration: {p}")));
+        }
         if real.items.len() > t.items.len() {
             return Some((
                 "extra-rows".into(),
